@@ -58,8 +58,12 @@ def run(ctx):
             for i in BA.of(bb).all_calls():
                 if is_mutator_call(bb.blocks[i]["term"]):
                     found.append((k, i))
-        allowed = {"state::ProcessState::init", "state::LockManager::open", "env::Env::make_redo_links_dir"}
-        bad = [(k, i) for k, i in found if k not in allowed]
+        # the state directory's own files are created by these two (roles: schema/run-id set-up, lock file); the only
+        # other mutation a query command may reach is inside a directory it has just created for itself with
+        # tempfile::tempdir() (the links to the redo executables) - decided on the mutated path, not on the name of the
+        # function that happens to contain the call
+        allowed = {"state::ProcessState::init", "state::LockManager::open"}
+        bad = [(k, i) for k, i in found if k not in allowed and not _inside_own_tempdir(prog.bodies[k], i)]
         ctx.ob("R17.2", "%s|no-project-file-mutation" % b.key, not bad, where=", ".join(ctx.where(prog.bodies[k], i) for k, i in bad[:3]),
                detail="mutators only in %s" % sorted({k for k, _ in found}) if not bad else "filesystem mutator reachable from a query command: %s" % sorted({k for k, _ in bad}))
     init = prog.one(r"state::ProcessState::init")
@@ -85,8 +89,12 @@ def run(ctx):
     ist = oba.switches_on_call(r"state::File::is_target")
     lst = oba.calls(r"state::Files::list")
     ok = bool(isd) and bool(lst)
-    ctx.ob("R17.3", "%s|shares-the-builder-routine" % O.key, ok and "deps::private_is_dirty" in ctx.cg.reachable([O.key]) and "deps::is_dirty" in ctx.cg.reachable(["@bin::ifchange::should_build"]),
-           where=O.span, detail="redo-ood and redo-ifchange's should_build both call deps::is_dirty")
+    # redo-ifchange's side of the comparison is a role, not a name: whatever decision callback (fn item or closure)
+    # redo-ifchange hands to builder::run
+    deciders = _ifchange_deciders(prog)
+    ctx.ob("R17.3", "%s|shares-the-builder-routine" % O.key, ok and "deps::private_is_dirty" in ctx.cg.reachable([O.key]) and bool(deciders)
+           and all("deps::is_dirty" in ctx.cg.reachable([k]) for k in deciders),
+           where=O.span, detail="redo-ood and redo-ifchange's should_build both call deps::is_dirty (decision callback(s): %s)" % deciders)
     # the vector judged is filled only on the is_target == true edge
     pushes = oba.calls(r"alloc::vec::Vec::push")
     ok = False
@@ -115,10 +123,17 @@ def run(ctx):
     if len(gsw) == 1 and src:
         sw, t_t, f_t = gsw[0]
         falses = [i for i in common.ok_returns(IT) if any(s["s"] == "assign" and s["rv"]["k"] == "agg" and (op_const(s["rv"]["ops"][0]) or {}).get("bool") is False for s in IT.blocks[i]["stmts"])]
-        not_gen_false = any(tba.edge_dominates((sw, f_t), x) for x in falses)
-        # the other side maps is_source through a negation closure
-        negs = [c for c in prog.children(IT) if any(s["s"] == "assign" and s["rv"]["k"] == "unop" and s["rv"]["op"] == "Not" for blk in c.blocks for s in blk["stmts"])]
-        ok = not_gen_false and all(tba.edge_dominates((sw, t_t), x) for x in src) and bool(negs) and bool(tba.calls(r"core::result::Result::map"))
+        not_gen_false = bool(falses) and all(tba.edge_dominates((sw, f_t), x) for x in falses)
+        # on the generated side what is returned is the negation of is_source's answer, however it is spelled
+        # (`.map(|b| !b)`, `Ok(!self.is_source(v)?)`, a match): every value assigned to the return place there
+        # is either the error of `?` or reaches back to the is_source call through an odd number of `!`
+        par = set()
+        for i in sorted(tba.live):
+            if IT.is_cleanup(i) or not tba.edge_dominates((sw, t_t), i):
+                continue
+            par |= _return_parities(prog, IT, i, r"state::File::is_source")
+        negated = par == {1}
+        ok = not_gen_false and all(tba.edge_dominates((sw, t_t), x) for x in src) and negated
     ctx.ob("R17.4", "is_target|generated-and-not-source", ok, where=IT.span, detail="is_target = if !is_generated {false} else {!is_source}" if ok else "is_target is not defined through is_source: the two listings can overlap")
     for q in (r"@bin::targets::run", r"@bin::sources::run"):
         b = prog.one(q)
@@ -131,3 +146,138 @@ def run(ctx):
     q = [s for (_, _, s, _) in str_consts(fl)]
     ok = any("from files order by name" in sqlc.norm(s) for s in q)
     ctx.ob("R17.4", "Files::list|one-ordered-query", ok, where=fl.span, detail="Files::list selects from Files ordered by name")
+
+
+def _ifchange_deciders(prog):
+    """Keys of the bodies redo-ifchange passes to builder::run as the "should this be built" callback."""
+    from facts import strip_generics
+    out = []
+    for b in prog.find(r"@bin::ifchange::.*"):
+        for i in BA.of(b).calls(r"builder::run"):
+            for g in b.blocks[i]["term"].get("gargs", []):
+                k = g.get("fn") or g.get("closure")
+                if k and strip_generics(k) in prog.bodies:
+                    out.append(strip_generics(k))
+    return sorted(set(out))
+
+
+def _inside_own_tempdir(body, bb):
+    """Is the path the mutator call at `bb` writes to computed from a temporary directory this body created itself
+    (`tempfile::tempdir()` / `TempDir::path()`)?  Destination operand: the link name of symlink/rename-like calls
+    (second path), else the first argument."""
+    from core import taint
+    t = body.blocks[bb]["term"]
+    two = call_matches(t, r".*(symlink|symlinkat|rename|linkat|hard_link|copy)")
+    idx = 1 if two and len(t["args"]) > 1 else 0
+    l = op_local(t["args"][idx]) if t["args"] else None
+    if l is None:
+        return False
+    made = BA.of(body).calls(r"tempfile::(dir::)?tempdir|tempfile::(dir::)?tempdir_in|tempfile::Builder::tempdir")
+    if not made:
+        return False
+    tnt = taint(body, src_call=lambda c: call_matches(c, r"tempfile::(dir::)?tempdir|tempfile::Builder::tempdir"), mode="derived")
+    ba = BA.of(body)
+    return l in tnt or any(x in tnt for x in ba.ref_chain(l))
+
+
+def _closure_parity(body):
+    """A closure `|b| <b through n nots>`: n mod 2, or None if the result is anything else."""
+    ba = BA.of(body)
+    todo = [(0, 0)]
+    seen = set()
+    out = set()
+    while todo:
+        l, par = todo.pop()
+        if (l, par) in seen:
+            continue
+        seen.add((l, par))
+        if 2 <= l <= body.arg_count and not ba.defs.get(l):
+            out.add(par)
+            continue
+        ds = ba.defs.get(l, [])
+        if not ds:
+            return None
+        for d in ds:
+            if d[0] != "stmt":
+                return None
+            rv = d[3]
+            if rv["k"] == "use" and op_place(rv["op"]) is not None and not op_place(rv["op"])["p"]:
+                todo.append((op_local(rv["op"]), par))
+            elif rv["k"] == "unop" and rv["op"] == "Not" and op_place(rv["a"]) is not None and not op_place(rv["a"])["p"]:
+                todo.append((op_local(rv["a"]), par ^ 1))
+            else:
+                return None
+    return out.pop() if len(out) == 1 else None
+
+
+def _return_parities(prog, body, bb, src_rx):
+    """For the values block `bb` puts into the return place: the set of parities (number of `!` mod 2) with which
+    the result of a call matching src_rx arrives; 'other' for any value that is something else. The error
+    residual of `?` contributes nothing (it is not a verdict)."""
+    from facts import strip_generics
+    ba = BA.of(body)
+    out = set()
+    todo = []
+    blk = body.blocks[bb]
+    for s in blk["stmts"]:
+        if s["s"] == "assign" and s["place"]["l"] == 0 and not s["place"]["p"]:
+            todo.append((("rv", s["rv"]), 0))
+    t = blk["term"]
+    if t["t"] == "call" and t["dest"]["l"] == 0 and not t["dest"]["p"]:
+        todo.append((("call", t), 0))
+    seen = set()
+    n = 0
+    while todo and n < 400:
+        n += 1
+        (kind, x), par = todo.pop()
+        if kind == "local":
+            if (x, par) in seen:
+                continue
+            seen.add((x, par))
+            ds = [d for d in ba.defs.get(x, []) if d[0] in ("stmt", "call", "yield")]
+            if not ds:
+                out.add("other")
+            for d in ds:
+                if d[0] == "stmt":
+                    todo.append((("rv", d[3]), par))
+                elif d[0] == "call":
+                    todo.append((("call", d[2]), par))
+                else:
+                    out.add("other")
+            continue
+        if kind == "rv":
+            rv = x
+            if rv["k"] == "use":
+                p = op_place(rv["op"])
+                if p is not None and all(e.startswith("as:") or e.startswith("f:core::") for e in p["p"]):
+                    todo.append((("local", p["l"]), par))
+                else:
+                    out.add("other")
+            elif rv["k"] == "unop" and rv["op"] == "Not" and op_place(rv["a"]) is not None and not op_place(rv["a"])["p"]:
+                todo.append((("local", op_local(rv["a"])), par ^ 1))
+            elif rv["k"] == "agg" and rv.get("adt") in ("core::result::Result", "core::option::Option") and rv.get("variant") in ("Ok", "Some") and len(rv["ops"]) == 1 \
+                    and op_place(rv["ops"][0]) is not None and not op_place(rv["ops"][0])["p"]:
+                todo.append((("local", op_local(rv["ops"][0])), par))
+            else:
+                out.add("other")
+            continue
+        t = x
+        if call_matches(t, src_rx):
+            out.add(par)
+        elif call_matches(t, r"(<.* as )?core::ops::try_trait::Try>?::branch") and op_local(t["args"][0]) is not None:
+            todo.append((("local", op_local(t["args"][0])), par))
+        elif call_matches(t, r"(<.* as )?core::ops::try_trait::FromResidual(<.*>)?>?::from_residual"):
+            pass
+        elif call_matches(t, r"core::result::Result::map|core::option::Option::map") and len(t["args"]) == 2 and op_local(t["args"][0]) is not None:
+            cp = None
+            for g in t.get("gargs", []):
+                if "closure" in g:
+                    cb = prog.bodies.get(strip_generics(g["closure"]))
+                    cp = _closure_parity(cb) if cb is not None else None
+            if cp is None:
+                out.add("other")
+            else:
+                todo.append((("local", op_local(t["args"][0])), par ^ cp))
+        else:
+            out.add("other")
+    return out
